@@ -17,7 +17,7 @@ use std::collections::BTreeMap;
 pub fn meta() -> Meta {
     Meta {
         level: "model_checking",
-        rule: "every well-formed history of at most L operations over {declare int x, declare const x, declare qubit x, declare int x = y, use x, for x in [0:y], assign x, gate-call x, open if / else / while / for x / case / default / gate(x) / def(x), close} for x in a two-name pool (four pools: user names; pi and the library gate h; the built-in gate U; non-ASCII names), rendered as a program and analysed by the real front end; every symbol reference of the graph is compared with the reference scope stack; states = distinct reference scope stacks reached, transitions = distinct (state, operation) pairs, traces = histories executed; a history is non-trivial when some use resolves through at least two open scopes or to a shadowing declaration, or is a duplicate declaration",
+        rule: "every well-formed history of at most L operations over {declare int x, declare const x, declare qubit x, declare int x = y, use x, for x in [0:y], if (x == 1), while (x == 1), assign x, gate-call x, open if / else / while / for x / case / default / gate(x) / def(x), close} for x in a two-name pool (four pools: user names; pi and the library gate h; the built-in gate U; non-ASCII names), rendered as a program and analysed by the real front end; every symbol reference of the graph is compared with the reference scope stack; states = distinct reference scope stacks reached, transitions = distinct (state, operation) pairs, traces = histories executed; a history is non-trivial when some use resolves through at least two open scopes or to a shadowing declaration, or is a duplicate declaration",
         assumptions: vec![
             "the generator never redeclares a for-loop variable directly in its own loop body and never uses a gate/subroutine name inside its own body (the statement does not fix these cases); gate/def parameters and body are one scope",
             "hook oq3_verif: scope depth accessor",
@@ -36,8 +36,12 @@ pub enum Op {
     Assign(u8),
     CallGate(u8),
     If,
+    /// `if (x == 1) {` — the condition is a use resolved outside the new scope
+    IfUse(u8),
     Else,
     While,
+    /// `while (x == 1) {`
+    WhileUse(u8),
     For(u8),
     /// `for int x in [0:y] {` — the iterable is a use that is resolved outside the loop scope
     ForIn(u8, u8),
@@ -48,7 +52,7 @@ pub enum Op {
     Close,
 }
 
-pub const OPS: [Op; 27] = [
+pub const OPS: [Op; 30] = [
     Op::DeclInt(0),
     Op::DeclInt(1),
     Op::DeclConst(0),
@@ -76,8 +80,11 @@ pub const OPS: [Op; 27] = [
     Op::DeclConst(1),
     Op::CallGate(0),
     Op::Assign(1),
+    Op::IfUse(0),
+    Op::WhileUse(1),
+    Op::IfUse(1),
 ];
-/// the first 24 operations are the quick alphabet; the thorough tier uses all 27
+/// the first 24 operations are the quick alphabet; the thorough tier uses all 30
 pub const N_QUICK_OPS: usize = 24;
 
 fn op_name(op: Op, names: &[&str; 2]) -> String {
@@ -90,6 +97,8 @@ fn op_name(op: Op, names: &[&str; 2]) -> String {
         Op::Assign(n) => format!("assign:{}", names[n as usize]),
         Op::CallGate(n) => format!("call:{}", names[n as usize]),
         Op::If => "if".into(),
+        Op::IfUse(n) => format!("if?{}", names[n as usize]),
+        Op::WhileUse(n) => format!("while?{}", names[n as usize]),
         Op::Else => "else".into(),
         Op::While => "while".into(),
         Op::For(n) => format!("for:{}", names[n as usize]),
@@ -274,6 +283,18 @@ pub fn render(hist: &[Op], family: usize) -> Option<Rendered> {
                 frames.push((Frame::If, vec![]));
                 scopes.push(BTreeMap::new());
             }
+            Op::IfUse(n) | Op::WhileUse(n) => {
+                let name = names[n as usize];
+                let (target, dist) = lookup(&scopes, name);
+                text.push_str(if matches!(op, Op::IfUse(_)) { "if (" } else { "while (" });
+                let start = text.len();
+                text.push_str(name);
+                let end = text.len();
+                text.push_str(" == 1) {\n");
+                events.push(Expect { name: name.to_string(), range: (start, end), is_decl: false, target, gate_use: false, typed: false, deep: dist >= 1 });
+                frames.push((if matches!(op, Op::IfUse(_)) { Frame::If } else { Frame::While }, vec![]));
+                scopes.push(BTreeMap::new());
+            }
             Op::Else => {
                 if !was_closed_if {
                     return None;
@@ -410,6 +431,17 @@ fn walk_block(stmts: &[asg::Stmt], out: &mut Vec<Found>) {
     }
 }
 
+/// The first identifier of an expression in source order (through casts and the left operand
+/// of binary expressions).
+fn first_ident(e: &asg::TExpr) -> Option<&oq3_semantics::symbols::SymbolIdResult> {
+    match e.expression() {
+        asg::Expr::Identifier(r) => Some(r),
+        asg::Expr::Cast(c) => first_ident(c.operand()),
+        asg::Expr::BinaryExpr(b) => first_ident(b.left()).or_else(|| first_ident(b.right())),
+        _ => None,
+    }
+}
+
 fn walk_stmt(s: &asg::Stmt, out: &mut Vec<Found>) {
     match s {
         asg::Stmt::DeclareClassical(d) => {
@@ -436,12 +468,20 @@ fn walk_stmt(s: &asg::Stmt, out: &mut Vec<Found>) {
         }
         asg::Stmt::GateCall(g) => out.push(Found { res: g.name().clone(), ty: None }),
         asg::Stmt::If(i) => {
+            if let Some(r) = first_ident(i.condition()) {
+                out.push(Found { res: r.clone(), ty: None });
+            }
             walk_block(i.then_branch().statements(), out);
             if let Some(e) = i.else_branch() {
                 walk_block(e.statements(), out);
             }
         }
-        asg::Stmt::While(w) => walk_block(w.loop_body().statements(), out),
+        asg::Stmt::While(w) => {
+            if let Some(r) = first_ident(w.condition()) {
+                out.push(Found { res: r.clone(), ty: None });
+            }
+            walk_block(w.loop_body().statements(), out)
+        }
         asg::Stmt::ForStmt(f) => {
             out.push(Found { res: f.loop_var().clone(), ty: None });
             // an identifier as the stop of a range iterable (possibly behind casts) is a use
